@@ -120,6 +120,28 @@ let hobs_of_string s =
   | [ok; db; ans] -> { ho_ok = bool_of_string01 ok; ho_db = db_of_string db; ho_answer = bool_of_string01 ans }
   | _ -> failwith ("bad hobs " ^ s)
 
+(* ---------- variable I/O ---------- *)
+let fs_obs_of_string s =
+  match String.split_on_char '~' s with
+  | ["O"; p; f] -> FO_OpenFile (bytes_of_hex p, n_of_string f)
+  | ["W"; b] -> FO_Write (bytes_of_hex b)
+  | _ -> FO_Other
+let read_obs_of_fields = function
+  | ["D"; a; v] -> RO_decoded (n_of_string a, bytes_of_hex v)
+  | ["A"; c] -> RO_wrong_attrs (bool_of_string01 c)
+  | ["E"; c] -> RO_error (bool_of_string01 c)
+  | _ -> failwith "bad read obs"
+let content_of_string s = if s = "-" then None else Some (bytes_of_hex s)
+let sop_of_string s =
+  match String.split_on_char '^' s with
+  | ["W"; n; g; a; v] -> SWrite (bytes_of_hex n, guid_of_string g, n_of_string a, bytes_of_hex v)
+  | ["R"; n; g; r] -> SRead (bytes_of_hex n, guid_of_string g, n_of_string r)
+  | _ -> failwith ("bad sop " ^ s)
+let store_of_string s =
+  List.map (fun kv -> match String.split_on_char '=' kv with
+                      | [k; v] -> (bytes_of_hex k, bytes_of_hex v)
+                      | _ -> failwith "bad store") (split ',' s)
+
 (* ---------- dispatch ---------- *)
 let verdict b = if b then "ok" else "violation"
 
@@ -180,6 +202,22 @@ let run (op : string) (a : string list) : string list =
       if List.length ops <> List.length obs then ["skip"; "ops/obs length"] else
       let ((v, i), okc) = run_history pem_oracle init init (List.combine ops obs) N0 N0 in
       [(match int_of_n v with 0 -> "ok" | 1 -> "violation" | _ -> "mismatch"); string_of_n i; string_of_n okc]
+  (* C11 *)
+  | "var_write", [dir; name; g; attrs; value; ok; trace] ->
+      [verdict (check_write (bytes_of_hex dir) (bytes_of_hex name) (guid_of_string g) (n_of_string attrs)
+                  (bytes_of_hex value) (bool_of_string01 ok) (List.map fs_obs_of_string (split '&' trace)))]
+  | "var_read", [content; required; api; obs] ->
+      let chk = if api = "legacy" then check_read_legacy else check_read in
+      [verdict (chk (content_of_string content) (n_of_string required)
+                  (read_obs_of_fields (String.split_on_char '~' obs)))]
+  (* C12 *)
+  | "store_history", [dir; init; ops; obs] ->
+      let ops = List.map sop_of_string (split '&' ops) in
+      let obs = List.map (fun o -> if o = "-" then None else Some (read_obs_of_fields (String.split_on_char '^' o)))
+                  (split '&' obs) in
+      if List.length ops <> List.length obs then ["skip"; "ops/obs length"] else
+      let (ok, i) = run_store (bytes_of_hex dir) (store_of_string init) (List.combine ops obs) N0 in
+      [verdict ok; string_of_n i]
   | _ -> ["skip"; "unknown op " ^ op]
 
 let () =
